@@ -111,6 +111,7 @@ type volumes map[string]*dirNode
 type dirNode struct {
 	children children // children are the nodes present in the directory.
 	baseNode          // baseNode is the common structure of directories, files and symbolic links.
+	id       uint64   // id is a unique id to identify a directory (used by SameFile function).
 	removed  bool     // removed is true once the directory has been removed from the file system.
 }
 
@@ -129,6 +130,7 @@ type fileNode struct {
 type symlinkNode struct {
 	link     string // link is the symbolic link value.
 	baseNode        // baseNode is the common structure of directories, files and symbolic links.
+	id       uint64 // id is a unique id to identify a symbolic link (used by SameFile function).
 	nlink    int    // nlink is the number of hardlinks to this symlinkNode.
 }
 
